@@ -380,6 +380,7 @@ func directedHistories() []history {
 	}
 	// round 5: failure outcomes as carriers of state between requests (fail.go)
 	hs = append(hs, failureHistories()...)
+	hs = append(hs, directedCaseHistories()...) // round 6 (envelope.go)
 	return hs
 }
 
